@@ -310,9 +310,28 @@ impl Prop for C14 {
         vec![
             Stage {
                 name: "huge",
-                kind: StageKind::Enumerate { scope: "2 fixed line texts with 70 000 distinct lines (token ids beyond 16 bits)".into(), exhaustive: true, gen: |_t, f| {
+                kind: StageKind::Enumerate { scope: "2 fixed line texts with 70 000 distinct lines (token ids beyond 16 bits); LCS over 1200 x 1200 repeated lines / 2400 x 2400 words with 90 scattered edits (tables beyond 2^20 cells)".into(), exhaustive: true, gen: |_t, f| {
                     for c in huge_line_cases() {
                         if !f(Case::Text { case: c, nt: 0 }) {
+                            return;
+                        }
+                    }
+                    // LCS on 1200 x 1200 tokens (table of 1.4 M cells): repeated lines, scattered edits
+                    for (tok, bytes) in [(0u8, false), (1u8, true)] {
+                        let a = lcg_seq(71, 1200, 40);
+                        let mut b = a.clone();
+                        for (i, x) in lcg_seq(72, 90, 1200).into_iter().enumerate() {
+                            let p = (x as usize).min(b.len() - 1);
+                            match i % 3 {
+                                0 => b[p] = (b[p] + 1) % 40,
+                                1 => {
+                                    b.remove(p);
+                                }
+                                _ => b.insert(p, (i % 40) as u32),
+                            }
+                        }
+                        let render = |v: &[u32]| BStr(v.iter().map(|x| if tok == 0 { format!("l{}\n", x) } else { format!("w{} ", x) }).collect::<String>().into_bytes());
+                        if !f(Case::Text { case: TextCase { old: render(&a), new: render(&b), tok, alg: 2, bytes, opt: 0 }, nt: 0 }) {
                             return;
                         }
                     }
